@@ -49,10 +49,16 @@ def run_family(chk, invariants, properties, s2i_fields, trace_fields, trace_inv,
     chk.cov["exhaustive_walks"] = [{"program": sources[w["walk"] - 1][0], "real_states": w["states"], "calls_per_state": w["alphabet"],
                                     "transitions_validated": w["steps"]} for w in wstats if w["complete"]]
     log("%s: exhaustive walks %d/%d accepted (%d transitions)" % (chk.pid, wacc, len(wexecs), sum(w["steps"] for w in wstats if w["complete"])))
+    # 6. the command line debugger (theo -d) as a client: sessions of commands recorded from the real binary, validated by TheoCliTrace
+    import cli
+    cacc = cli.sessions(chk, sources, progs, 12 if chk.thorough else 3, 60 if chk.thorough else 30, chk.seed + 9, variant=variant)
+    chk.add("traces_validated_against_impl", cacc)
+    chk.add("cli_debugger_sessions", cacc)
+    log("%s: theo -d sessions accepted: %d" % (chk.pid, cacc))
     chk.cov["rule"] = ("complete TLC state graph of TheoVM over all debugger histories of the compiled corpus programs; "
                        "all API histories of length %d replayed into the real VM; %d seeded random histories of %d calls "
                        "recorded from the real VM and validated by TheoVMTrace; exhaustive walks of the real VM's whole reachable state graph (every call "
-                       "from every state) on the programs with <= %d states, every transition validated" % (k, len(execs), calls, 1000 if not chk.thorough else 20000))
+                       "from every state) on the programs with <= %d states, every transition validated; sessions of the command line debugger (theo -d) validated by TheoCliTrace" % (k, len(execs), calls, 1000 if not chk.thorough else 20000))
     chk.cov["programs_in_graph"] = len(progs)
     chk.cov["exhaustive"] = True
     chk.assumptions += ["programs are the real compiler's output for /verif/corpus/vm/*.theo",
